@@ -1,7 +1,8 @@
 """C01 — feature vectors (enumerated by TLC, spec/IDL/C01Universe.tla) -> IDL program JSON (lib/idl.py model).
 
 A vector is a record
-  kinds   all | typedef | const | enum | struct | union | exception | service      definition kinds present
+  kinds   all | typedef | const | enum | struct | union | exception | service | svc-empty | svc-derived-empty
+          definition kinds present (svc-empty: a lone `service S {}`; svc-derived-empty: a lone `service D extends inc.Base {}`)
   shapes  index of the type-shape batch (lib/universe.py + spec/IDL/Shapes.tla)
   reqdef  mixed | required | optional | default | optional+value | default+value      requiredness x default value
   inc     single | chain3 | diamond | samens | samebase | pkg-<name>                  include graph (pkg-<name>: no go
@@ -276,7 +277,10 @@ def build(vec, shapes):
     v = dict(vec)
     kinds = v["kinds"]
     has = lambda k: kinds == "all" or kinds == k  # noqa: E731
-    w = World(v["inc"], int(v["tdchain"]), v.get("ns", "plain"))
+    inc = v["inc"]
+    if kinds == "svc-derived-empty" and inc == "single":
+        inc = "chain3"      # the base service lives in the directly included file
+    w = World(inc, int(v["tdchain"]), v.get("ns", "plain"))
     ns = NAME_SETS[v["names"]]
     home = w.files[w.home]
     main = w.main
@@ -478,6 +482,33 @@ def build(vec, shapes):
         if ext != "none" and extends:
             main["defs"].append({"k": "service", "name": ns["st"] + "Svc2", "extends": ns["st"] + "Svc", "functions": [
                 {"name": "more", "oneway": False, "ret": T("bool"), "args": [], "throws": None}]})
+
+    # ---- files that need few imports: a lone empty service / a lone empty service derived from an included base
+    if kinds == "svc-empty":
+        main["defs"].append({"k": "service", "name": ns["st"] + "Svc", "extends": None, "functions": []})
+    if kinds == "svc-derived-empty":
+        incf = w.files[main["includes"][0]]
+        incf["defs"].append({"k": "service", "name": "Base", "extends": None, "functions": [
+            {"name": "ping", "oneway": False, "ret": None, "args": [], "throws": None},
+            {"name": "echo", "oneway": False, "ret": T("string"), "args": [F(1, "default", T("string"), "s")], "throws": None}]})
+        main["defs"].append({"k": "service", "name": ns["st"] + "Derived", "extends": w.ref_name(incf["path"]) + ".Base",
+                             "functions": []})
+
+    # ---- struct-like map keys (pointer keys in Go), direct and through a typedef
+    if kinds == "all":
+        home["defs"].append({"k": "union", "name": "KU", "fields": [F(1, "default", T("i32"), "a"), F(2, "default", T("string"), "b")]})
+        ku = w.shared_ref("KU")
+        kx = w.shared_ref("X")
+        kin = w.shared_ref("In")
+        main["defs"].append({"k": "typedef", "name": ns["st"] + "KeyU", "type": T(ku)})
+        main["defs"].append({"k": "typedef", "name": ns["st"] + "KeyX", "type": T(kx)})
+        main["defs"].append({"k": "struct", "name": ns["st"] + "KeyMaps", "fields": [
+            F(1, "default", T("map", T(ku), T("string")), "byUnion"),
+            F(2, "optional", T("map", T(kx), T("i32")), "byException"),
+            F(3, "default", T("map", T(kin), T("list", T("i32"))), "byStruct"),
+            F(4, "default", T("map", T(ns["st"] + "KeyU"), T(kin)), "byUnionTypedef"),
+            F(5, "optional", T("map", T(ns["st"] + "KeyX"), T("string")), "byExceptionTypedef"),
+            F(6, "default", T("list", T("map", T(ku), T("set", T("i64")))), "nested")]})
 
     # constants whose value cannot be written in this presentation (see val) are left out
     for p in w.order:
